@@ -369,7 +369,7 @@ pub fn full_format(seed: u64) -> RunOutcome {
 
 pub fn dummy_cfg() -> RunCfg {
     RunCfg {
-        vol: VolCfg { source: VolSource::Format, fat: 12, bps: 512, spc: 1, fats: 1, root_entries: 16, total_sectors: 100, extra_sectors: 0, ballast_keep: None, ballast_mode: 0, fsinfo_mode: 0, hint: None, status: 0, label: false, tail_taken: 0 },
+        vol: VolCfg { source: VolSource::Format, fat: 12, bps: 512, spc: 1, fats: 1, root_entries: 16, total_sectors: 100, extra_sectors: 0, ballast_keep: None, ballast_mode: 0, fsinfo_mode: 0, hint: None, status: 0, label: false, tail_taken: 0, dirty_medium: false },
         access_date: false,
         strict: true,
         oem: Oem::Lossy,
